@@ -189,7 +189,7 @@ func main() {
 		c = counts{hash: 800, ped: 300, pedOps: 50, intc: 120, intOps: 50, eg: 200, egOps: 50, ext: 1500, equiv: 600, tamperPerProgram: 6}
 	}
 	if a.Search {
-		c = counts{hash: 1500, ped: 150, pedOps: c.pedOps, intc: 40, intOps: c.intOps, eg: 100, egOps: c.egOps, ext: 400, equiv: 300, tamperPerProgram: 4}
+		c = counts{hash: 600, ped: 150, pedOps: c.pedOps, intc: 40, intOps: c.intOps, eg: 100, egOps: c.egOps, ext: 400, equiv: 300, tamperPerProgram: 4}
 	}
 
 	if a.Replay != "" {
@@ -205,22 +205,23 @@ func main() {
 		res.Note("%s: %.1fs", what, time.Since(t0).Seconds())
 		t0 = time.Now()
 	}
-	for i := 0; i < c.hash; i++ {
-		hashcomCase(r, i)
-		r.maybeFlush()
-	}
-	lap("hashcom")
-	pedersenAll(r, c)
-	lap("pedersencom")
-	elgamalAll(r, c)
-	lap("indcpacom")
-	intcomAll(r, c)
-	lap("intcom")
+	// small streams first so that the evidence samples show more than one scheme
 	for i := 0; i < c.ext; i++ {
 		extractCase(r, i)
 		r.maybeFlush()
 	}
 	lap("extraction")
+	intcomAll(r, c)
+	lap("intcom")
+	elgamalAll(r, c)
+	lap("indcpacom")
+	pedersenAll(r, c)
+	lap("pedersencom")
+	for i := 0; i < c.hash; i++ {
+		hashcomCase(r, i)
+		r.maybeFlush()
+	}
+	lap("hashcom")
 	res.Write(a.Out)
 }
 
